@@ -288,6 +288,45 @@ func init() {
 						}
 					}
 				}},
+				{Name: "nlv-odd", N: len(oddNLVs) * len(oddNLVs) * 3, Exhaustive: true, Run: func(c *Ctx, idx int) {
+					prop := []string{"name", "summary", "content"}[idx%3]
+					i, j := (idx/3)/len(oddNLVs), (idx/3)%len(oddNLVs)
+					mk := func(n vocab.NaturalLanguageValues) vocab.Item {
+						o := &vocab.Object{ID: "https://example.com/odd", Type: vocab.NoteType}
+						switch prop {
+						case "name":
+							o.Name = n
+						case "summary":
+							o.Summary = n
+						default:
+							o.Content = n
+						}
+						return o
+					}
+					a, b := oddNLVs[i], oddNLVs[j]
+					x, y := mk(toNLV(a)), mk(toNLV(b))
+					desc := fmt.Sprintf("Object.%s=%q vs %q", prop, toNLV(a), toNLV(b))
+					c.Distinct("odd|"+desc, true)
+					c.Count("law:odd-nlv", 1)
+					if i == j {
+						if eq, ok := itemsEqual(c, "R "+desc, x, x); ok && !eq {
+							c.Fail("eq|R|odd-nlv|"+oddClass(a), "ItemsEqual(x,x) is false for "+desc, map[string]any{"case": desc})
+						}
+						return
+					}
+					if pairSet(a) == pairSet(b) {
+						return
+					}
+					for _, ord := range []string{"xy", "yx"} {
+						p, q := x, y
+						if ord == "yx" {
+							p, q = y, x
+						}
+						if eq, ok := itemsEqual(c, "I "+desc, p, q); ok && eq {
+							c.Fail("eq|I|odd-nlv|"+oddClass(a)+"|"+oddClass(b), fmt.Sprintf("objects whose %s differ compare equal (%s): %s", prop, ord, desc), map[string]any{"case": desc, "order": ord})
+						}
+					}
+				}},
 				{Name: "reflexive-random", N: tierN(tier, 20000, 300000), Run: func(c *Ctx, idx int) {
 					g := exactGen(c, false, idx)
 					x, label := randomValue(g, tierN(tier, 2, 4))
@@ -308,6 +347,41 @@ func init() {
 			"properties beyond the object core and the six activity properties are not judged (the statement does not name them)",
 		},
 	})
+}
+
+// unusual but legal language lists: repeated tag with different texts, empty texts, the nil tag among tagged entries, an empty tag
+var oddNLVs = [][]lv{
+	{{"en", "first"}, {"en", "second"}},
+	{{"en", "Hello"}, {"fr", ""}},
+	{{"en", "Hello"}, {"de", ""}},
+	{{vocab.NilLangRef, "plain"}, {"en", "tagged"}},
+	{{"en", ""}},
+	{{"fr", ""}},
+	{{"", "x"}},
+	{{"en", "Hello"}, {"fr", "Bonjour"}},
+	{{"fr", "Bonjour"}, {"en", "Hello"}},
+	{{"en", "Hello"}, {"fr", "Bonjour"}, {"de", "Hallo"}},
+	{{"en", "Hello"}},
+}
+
+func oddClass(l []lv) string {
+	tags := map[vocab.LangRef]bool{}
+	cls := "plain"
+	for _, e := range l {
+		if tags[e.tag] {
+			cls = "repeated-tag"
+		}
+		tags[e.tag] = true
+	}
+	for _, e := range l {
+		if e.text == "" {
+			cls = "empty-text"
+		}
+		if e.tag == "" {
+			cls = "empty-tag"
+		}
+	}
+	return fmt.Sprintf("%s/len%d", cls, len(l))
 }
 
 func nilClass(n string) string {
